@@ -36,6 +36,46 @@ pub enum Kind {
     /// two deviations: the merge thread is preempted at its `m_idx`-th storage operation by the action, and
     /// afterwards the k-th storage operation of the updater (finishing / reconciling the merge) fails once
     MergeVsOpsFault { action: usize, m_idx: usize },
+    /// two producer threads share one writer: producer A is preempted at each of its hook points (between
+    /// drawing an opstamp and enqueueing the operation) by the whole program of producer B
+    Producers { a: usize, b: usize },
+}
+
+#[derive(Clone, Debug, PartialEq)]
+pub enum POp {
+    Add(u64, &'static str),
+    Del(&'static str),
+    /// run([add(id, key), delete(key2), add(id + 1, key)]) as one batch
+    Batch(u64, &'static str, &'static str),
+}
+
+pub fn producer_programs() -> Vec<Vec<POp>> {
+    use POp::*;
+    vec![
+        vec![Add(10, "x")],
+        vec![Del("x")],
+        vec![Add(10, "x"), Del("x")],
+        vec![Del("x"), Add(10, "x")],
+        vec![Batch(10, "x", "x")],
+        vec![Add(10, "y"), Del("y"), Add(11, "x")],
+    ]
+}
+
+pub fn producer_programs_b() -> Vec<Vec<POp>> {
+    use POp::*;
+    vec![vec![Del("x")], vec![Add(20, "x")], vec![Add(20, "x"), Del("x")], vec![Del("x"), Add(20, "x"), Del("y")], vec![Batch(20, "x", "x")]]
+}
+
+fn apply_pop(state: &mut Vec<(u64, String)>, op: &POp) {
+    match op {
+        POp::Add(id, k) => state.push((*id, k.to_string())),
+        POp::Del(k) => state.retain(|d| d.1 != *k),
+        POp::Batch(id, k, k2) => {
+            state.push((*id, k.to_string()));
+            state.retain(|d| d.1 != *k2);
+            state.push((*id + 1, k.to_string()));
+        }
+    }
 }
 
 pub fn merge_actions() -> Vec<Vec<Step>> {
@@ -82,6 +122,11 @@ pub fn scenarios(thorough: bool) -> Vec<Kind> {
     for action in [0usize, 1, 5] {
         for m_idx in if thorough { vec![1usize, 20, 40, 60, 70] } else { vec![1usize, 40] } {
             v.push(Kind::MergeVsOpsFault { action, m_idx });
+        }
+    }
+    for a in 0..producer_programs().len() {
+        for b in 0..producer_programs_b().len() {
+            v.push(Kind::Producers { a, b });
         }
     }
     if thorough {
@@ -191,6 +236,7 @@ pub fn run(kind: &Kind, point: Option<&Point>) -> RunResult {
         Kind::WriterVsReload => writer_vs_reload(point),
         Kind::MergeVsOps { action } => merge_vs_ops(*action, point, None),
         Kind::MergeVsOpsFault { action, m_idx } => merge_vs_ops(*action, point, Some(*m_idx)),
+        Kind::Producers { a, b } => producers(*a, *b, point),
     }
 }
 
@@ -697,6 +743,185 @@ fn commit_vs_merge_end(point: Option<&Point>) -> RunResult {
     res
 }
 
+fn producers(a: usize, b: usize, point: Option<&Point>) -> RunResult {
+    use tantivy::indexer::UserOperation;
+    let mut res = RunResult::default();
+    crate::presched::set_flush(None);
+    let pa = producer_programs()[a].clone();
+    let pb = producer_programs_b()[b].clone();
+    let sim = SimDirectory::new();
+    let cfg = WlConfig { workers: 1, dedicated_compressor: false };
+    let index = match Index::create(sim.clone(), schema(), settings(&cfg)) {
+        Ok(i) => i,
+        Err(e) => {
+            res.violations.push(("machinery".into(), format!("{e:?}")));
+            return res;
+        }
+    };
+    let sch = schema();
+    let (idf, bodyf) = (sch.get_field("id").unwrap(), sch.get_field("body").unwrap());
+    let mk = move |id: u64, k: &str| {
+        let mut d = tantivy::TantivyDocument::default();
+        d.add_u64(idf, id);
+        d.add_text(bodyf, format!("k{k} common"));
+        d
+    };
+    let mut w: tantivy::IndexWriter = match index.writer_with_options(writer_options(&cfg)) {
+        Ok(w) => w,
+        Err(e) => {
+            res.violations.push(("machinery".into(), format!("{e:?}")));
+            return res;
+        }
+    };
+    w.set_merge_policy(Box::new(tantivy::merge_policy::NoMergePolicy));
+    // committed base: one x and one y document
+    let _ = w.add_document(mk(1, "x"));
+    let _ = w.add_document(mk(2, "y"));
+    if let Err(e) = w.commit() {
+        res.violations.push(("machinery".into(), format!("{e:?}")));
+        return res;
+    }
+    let base: Vec<(u64, String)> = vec![(1, "x".into()), (2, "y".into())];
+    let before = all_counts(&sim);
+    let wref = Arc::new(w);
+    let exec = {
+        let mk = mk.clone();
+        move |w: &tantivy::IndexWriter, op: &POp| -> Result<(), String> {
+            match op {
+                POp::Add(id, k) => w.add_document(mk(*id, k)).map(|_| ()).map_err(|e| format!("{e:?}")),
+                POp::Del(k) => {
+                    w.delete_term(tantivy::Term::from_field_text(bodyf, &format!("k{k}")));
+                    Ok(())
+                }
+                POp::Batch(id, k, k2) => w
+                    .run(vec![UserOperation::Add(mk(*id, k)), UserOperation::Delete(tantivy::Term::from_field_text(bodyf, &format!("k{k2}"))), UserOperation::Add(mk(*id + 1, k))])
+                    .map(|_| ())
+                    .map_err(|e| format!("{e:?}")),
+            }
+        }
+    };
+    let errors: Arc<Mutex<Vec<String>>> = Arc::new(Mutex::new(vec![]));
+    let run_b = {
+        let (w, pb, exec, errors) = (wref.clone(), pb.clone(), exec.clone(), errors.clone());
+        move || {
+            for op in &pb {
+                if let Err(e) = exec(&w, op) {
+                    errors.lock().unwrap().push(e);
+                }
+            }
+        }
+    };
+    let pre = point.map(|p| Preempt::arm(&sim, &p.tid, p.idx, Box::new(run_b.clone())));
+    // which operation of A was in flight when B ran
+    let a_done = Arc::new(std::sync::atomic::AtomicUsize::new(0));
+    let handle = {
+        let (w, pa, exec, errors, a_done) = (wref.clone(), pa.clone(), exec.clone(), errors.clone(), a_done.clone());
+        std::thread::Builder::new()
+            .name("verif-producer-a".into())
+            .spawn(move || {
+                set_logical_tid("PA");
+                for op in &pa {
+                    if let Err(e) = exec(&w, op) {
+                        errors.lock().unwrap().push(e);
+                    }
+                    a_done.fetch_add(1, std::sync::atomic::Ordering::SeqCst);
+                }
+            })
+            .unwrap()
+    };
+    let _ = handle.join();
+    res.ranges = ranges_between(&before, &all_counts(&sim));
+    let mut b_after_all = true;
+    let mut in_flight: Option<usize> = None;
+    if let Some(p) = pre {
+        let o = p.finish();
+        if o.fired {
+            b_after_all = false;
+            // the k-th hook point of PA belongs to its k-th operation (one point per call)
+            in_flight = point.map(|p| p.idx.saturating_sub(res.ranges.get("PA@").map(|r| r.0).unwrap_or(0)));
+        }
+        if let Some(m) = &o.action_panic {
+            res.violations.push(("writer_action_panics".into(), m.clone()));
+        }
+        res.outcome = Some(o);
+    }
+    if b_after_all {
+        run_b();
+    }
+    drop(run_b);
+    for e in errors.lock().unwrap().drain(..) {
+        res.violations.push(("call_fails".into(), e));
+    }
+    let mut w = match Arc::try_unwrap(wref) {
+        Ok(w) => w,
+        Err(_) => {
+            res.violations.push(("machinery".into(), "writer still shared".into()));
+            return res;
+        }
+    };
+    if let Err(e) = w.commit() {
+        res.violations.push(("call_fails".into(), format!("commit: {e:?}")));
+        return res;
+    }
+    drop(w);
+    // observed: (id, key) of the live documents
+    let observed: Result<Vec<(u64, String)>, String> = (|| {
+        let idx = Index::open(sim.clone()).map_err(|e| format!("{e:?}"))?;
+        let reader: IndexReader = idx.reader_builder().reload_policy(ReloadPolicy::Manual).try_into().map_err(|e| format!("{e:?}"))?;
+        let s = reader.searcher();
+        let mut out = vec![];
+        for key in ["x", "y"] {
+            let q = tantivy::query::TermQuery::new(tantivy::Term::from_field_text(bodyf, &format!("k{key}")), tantivy::schema::IndexRecordOption::Basic);
+            for addr in s.search(&q, &tantivy::collector::DocSetCollector).map_err(|e| format!("{e:?}"))? {
+                let col = s.segment_reader(addr.segment_ord).fast_fields().u64("id").map_err(|e| format!("{e:?}"))?;
+                out.push((col.first(addr.doc_id).unwrap_or(u64::MAX), key.to_string()));
+            }
+        }
+        out.sort();
+        Ok(out)
+    })();
+    let observed = match observed {
+        Ok(o) => o,
+        Err(e) => {
+            res.violations.push(("final_index_unreadable".into(), e));
+            return res;
+        }
+    };
+    // admissible: every sequential order consistent with what overlapped. B's whole program ran while A's
+    // operation `in_flight` was between stamping and enqueueing (or after all of A when nothing fired): A's
+    // earlier operations precede B, its later ones follow B, the in-flight one may fall anywhere inside B.
+    let mut admissible: Vec<Vec<(u64, String)>> = vec![];
+    let orders: Vec<Vec<POp>> = match in_flight {
+        None => vec![pa.iter().chain(pb.iter()).cloned().collect()],
+        Some(k) if k < pa.len() => (0..=pb.len())
+            .map(|pos| {
+                let mut v: Vec<POp> = pa[..k].to_vec();
+                v.extend(pb[..pos].iter().cloned());
+                v.push(pa[k].clone());
+                v.extend(pb[pos..].iter().cloned());
+                v.extend(pa[k + 1..].iter().cloned());
+                v
+            })
+            .collect(),
+        Some(_) => vec![pa.iter().chain(pb.iter()).cloned().collect()],
+    };
+    for o in &orders {
+        let mut st = base.clone();
+        for op in o {
+            apply_pop(&mut st, op);
+        }
+        st.sort();
+        admissible.push(st);
+    }
+    if !admissible.contains(&observed) {
+        res.violations.push((
+            "commit_not_a_sequential_order_of_concurrent_calls".into(),
+            format!("producer A {pa:?} with operation #{in_flight:?} in flight (at {:?}) while producer B ran {pb:?}: after the commit the index holds {observed:?}; the sequential orders consistent with the overlap give {admissible:?}", res.outcome.as_ref().map(|o| o.at_op.clone())),
+        ));
+    }
+    res
+}
+
 fn writer_vs_reload(point: Option<&Point>) -> RunResult {
     use Step::*;
     let mut res = RunResult::default();
@@ -768,6 +993,7 @@ pub fn points(kind: &Kind, ranges: &BTreeMap<String, (usize, usize)>) -> Vec<Poi
             Kind::MergeVsRestart { .. } | Kind::MergeVsOps { .. } => tid.starts_with('M') || tid == "U",
             Kind::OverlappingMerges { .. } => false,
             Kind::MergeVsOpsFault { .. } => tid == "Ufault",
+            Kind::Producers { .. } => tid_full == "PA@",
             Kind::CommitVsMergeEnd => tid == "U",
             Kind::WriterVsReload => tid != "P",
         };
